@@ -427,7 +427,59 @@ func (b *Builder) ToReal(x *Term) *Term {
 	return b.intern(&Term{Op: "to_real", Sort: SReal, Args: []*Term{x}, Lo: x.Lo, Hi: x.Hi})
 }
 
-// Floor is SMT-LIB to_int (floor).
+// asInt returns an Int term equal to the Real term x when x is syntactically integer-valued.
+func (b *Builder) asInt(x *Term) (*Term, bool) {
+	switch x.Op {
+	case "cr":
+		if x.Rat.IsInt() {
+			return b.BigInt(x.Rat.Num()), true
+		}
+	case "to_real":
+		return x.Args[0], true
+	case "+", "-", "*":
+		l, ok1 := b.asInt(x.Args[0])
+		r, ok2 := b.asInt(x.Args[1])
+		if ok1 && ok2 {
+			switch x.Op {
+			case "+":
+				return b.Add(l, r), true
+			case "-":
+				return b.Sub(l, r), true
+			default:
+				return b.Mul(l, r), true
+			}
+		}
+	case "ite":
+		l, ok1 := b.asInt(x.Args[1])
+		r, ok2 := b.asInt(x.Args[2])
+		if ok1 && ok2 {
+			return b.Ite(x.Args[0], l, r), true
+		}
+	}
+	return nil, false
+}
+
+// scaledInt recognises x = to_real(i) * (p/q) and returns (i, p, q).
+func (b *Builder) scaledInt(x *Term) (*Term, *big.Int, *big.Int, bool) {
+	if x.Op != "*" {
+		return nil, nil, nil, false
+	}
+	l, r := x.Args[0], x.Args[1]
+	if l.Op == "cr" {
+		l, r = r, l
+	}
+	if r.Op != "cr" {
+		return nil, nil, nil, false
+	}
+	i, ok := b.asInt(l)
+	if !ok {
+		return nil, nil, nil, false
+	}
+	return i, r.Rat.Num(), r.Rat.Denom(), true
+}
+
+// Floor is SMT-LIB to_int (floor). Integer-valued and scaled-integer arguments stay in
+// integer arithmetic (division by a constant) instead of going through to_int.
 func (b *Builder) Floor(x *Term) *Term {
 	if x.Sort == SInt {
 		return x
@@ -438,8 +490,14 @@ func (b *Builder) Floor(x *Term) *Term {
 		n.DivMod(x.Rat.Num(), x.Rat.Denom(), m) // Euclidean: floor for positive denom
 		return b.BigInt(n)
 	}
-	if x.Op == "to_real" {
-		return x.Args[0]
+	if i, ok := b.asInt(x); ok {
+		return i
+	}
+	if x.Op == "ite" {
+		return b.Ite(x.Args[0], b.Floor(x.Args[1]), b.Floor(x.Args[2]))
+	}
+	if i, p, q, ok := b.scaledInt(x); ok {
+		return b.Div(b.Mul(i, b.BigInt(p)), b.BigInt(q))
 	}
 	return b.intern(&Term{Op: "to_int", Sort: SInt, Args: []*Term{x}, Lo: x.Lo, Hi: x.Hi})
 }
@@ -451,8 +509,14 @@ func (b *Builder) IsInt(x *Term) *Term {
 	if x.Op == "cr" {
 		return b.Bool(x.Rat.IsInt())
 	}
-	if x.Op == "to_real" {
+	if _, ok := b.asInt(x); ok {
 		return b.True
+	}
+	if x.Op == "ite" {
+		return b.Ite(x.Args[0], b.IsInt(x.Args[1]), b.IsInt(x.Args[2]))
+	}
+	if i, p, q, ok := b.scaledInt(x); ok {
+		return b.Eq(b.Mod(b.Mul(i, b.BigInt(p)), b.BigInt(q)), b.Int(0))
 	}
 	return b.intern(&Term{Op: "is_int", Sort: SBool, Args: []*Term{x}})
 }
@@ -544,11 +608,24 @@ func (b *Builder) Mul(x, y *Term) *Term {
 	if isZero(y) || isOne(x) {
 		return y
 	}
+	// (t * c1) * c2 = t * (c1*c2)
+	if y.Op == "cr" && x.Op == "*" && x.Args[1].Op == "cr" {
+		return b.Mul(x.Args[0], b.RatC(new(big.Rat).Mul(x.Args[1].Rat, y.Rat)))
+	}
+	if x.Op == "cr" && y.Op == "*" && y.Args[1].Op == "cr" {
+		return b.Mul(y.Args[0], b.RatC(new(big.Rat).Mul(y.Args[1].Rat, x.Rat)))
+	}
+	if x.Op == "cr" && y.Op == "*" && y.Args[0].Op == "cr" {
+		return b.Mul(y.Args[1], b.RatC(new(big.Rat).Mul(y.Args[0].Rat, x.Rat)))
+	}
+	if y.Op == "cr" && x.Op == "*" && x.Args[0].Op == "cr" {
+		return b.Mul(x.Args[1], b.RatC(new(big.Rat).Mul(x.Args[0].Rat, y.Rat)))
+	}
 	// push constant multiplication inside ite tables (keeps each branch linear)
-	if x.IsConst() && y.Op == "ite" && (y.Args[1].IsConst() || y.Args[2].IsConst()) {
+	if x.IsConst() && y.Op == "ite" {
 		return b.Ite(y.Args[0], b.Mul(x, y.Args[1]), b.Mul(x, y.Args[2]))
 	}
-	if y.IsConst() && x.Op == "ite" && (x.Args[1].IsConst() || x.Args[2].IsConst()) {
+	if y.IsConst() && x.Op == "ite" {
 		return b.Ite(x.Args[0], b.Mul(x.Args[1], y), b.Mul(x.Args[2], y))
 	}
 	if !x.IsConst() && y.Op == "ite" && y.Args[1].IsConst() {
